@@ -8,7 +8,9 @@ import (
 	"errors"
 	"fmt"
 	"io"
+	"net"
 	"strings"
+	"time"
 
 	"verif/mc/explore"
 )
@@ -146,6 +148,11 @@ func (r *Reader) Read(p []byte) (int, error) {
 		}
 		copy(p, r.Data[r.Off:r.Off+m])
 		r.Off += m
+		if r.MixEnd && r.Off == len(r.Data) {
+			// the last segment arrives together with the end error
+			r.ended = true
+			return r.note(len(p), m, r.endErr())
+		}
 		return r.note(len(p), m, nil)
 	}
 	if r.C == nil {
@@ -240,10 +247,14 @@ type Writer struct {
 	// (a transient condition); a WriteTo that tries again is then not
 	// stopped by the writer
 	Recover bool
-	failed  bool
-	Buf     []byte
-	Calls   []WriteEvent
-	Chunks  [][]byte
+	// ErrWhenFull: a Write call that brings the accepted bytes to exactly
+	// FailAfter is accepted whole and still answered with E (an io.Writer
+	// may report an error although it took everything)
+	ErrWhenFull bool
+	failed      bool
+	Buf         []byte
+	Calls       []WriteEvent
+	Chunks      [][]byte
 }
 
 func (w *Writer) Write(p []byte) (int, error) {
@@ -261,6 +272,12 @@ func (w *Writer) Write(p []byte) (int, error) {
 	room := w.FailAfter - len(w.Buf)
 	if room < 0 {
 		room = 0
+	}
+	if len(p) == room && w.ErrWhenFull && len(p) > 0 {
+		w.Buf = append(w.Buf, p...)
+		w.Calls = append(w.Calls, WriteEvent{len(p), len(p), true})
+		w.failed = true
+		return len(p), w.E
 	}
 	if len(p) <= room {
 		w.Buf = append(w.Buf, p...)
@@ -294,7 +311,7 @@ const (
 	KRich                        // own type offering ReadByte/UnreadByte/Peek/Discard/Buffered/WriteTo over the scripted reader
 	KLimited                     // *io.LimitedReader over the scripted reader (limit far beyond the stream)
 	KOddLen                      // own type over the scripted reader with methods Len() and Size() that mean something else (bytes written so far: 0)
-	KCloser                      // own type with a Close method (a connection double): after Close every Read fails
+	KCloser                      // own type with the method set of net.Conn: after Close every Read fails, after a read deadline has passed too
 	KBytesBuffer                 // *bytes.Buffer holding the stream (contiguous by construction)
 	KBytesReader                 // *bytes.Reader
 	KStringsReader               // *strings.Reader
@@ -358,24 +375,61 @@ func (r *OddLen) Len() int                   { return 0 }
 func (r *OddLen) Size() int64                { return 0 }
 func (r *OddLen) Cap() int                   { return 0 }
 
-// Closer is a reader that can be closed, as every connection can. Closing
-// it is the caller's business: a decoder that closes it (on a frame it does
-// not like, say) takes the rest of the stream away from the caller.
+// Closer is a connection double: a reader with the whole method set of
+// net.Conn. Closing it, writing to it and setting deadlines on it are the
+// caller's business: a decoder that closes it (on a frame it does not like,
+// say) takes the rest of the stream away from the caller; one that sets a
+// read deadline makes later reads fail once the harness clock (Now) has
+// passed it.
 type Closer struct {
-	src    *Reader
-	Closed bool
+	src      *Reader
+	Closed   bool
+	Deadline time.Time
+	Written  []byte
 }
 
 // ErrClosed is what a Closer answers after Close.
 var ErrClosed = errors.New("env: read on closed connection")
 
+// Now is the clock deadlines are compared with; the checks point it at
+// the harness clock the library under test reads too (instrumented builds).
+// Without that seam deadlines never pass.
+var Now = func() time.Time { return time.Time{} }
+
+type timeoutErr struct{}
+
+func (timeoutErr) Error() string {
+	return "env: i/o timeout (a read deadline was set on the connection)"
+}
+func (timeoutErr) Timeout() bool   { return true }
+func (timeoutErr) Temporary() bool { return true }
+
+type addr struct{}
+
+func (addr) Network() string { return "tcp" }
+func (addr) String() string  { return "192.0.2.1:1883" }
+
 func (r *Closer) Read(p []byte) (int, error) {
 	if r.Closed {
 		return 0, ErrClosed
 	}
+	if !r.Deadline.IsZero() && !Now().Before(r.Deadline) {
+		return 0, timeoutErr{}
+	}
 	return r.src.Read(p)
 }
-func (r *Closer) Close() error { r.Closed = true; return nil }
+func (r *Closer) Write(p []byte) (int, error) {
+	r.Written = append(r.Written, p...)
+	return len(p), nil
+}
+func (r *Closer) Close() error                       { r.Closed = true; return nil }
+func (r *Closer) LocalAddr() net.Addr                { return addr{} }
+func (r *Closer) RemoteAddr() net.Addr               { return addr{} }
+func (r *Closer) SetDeadline(t time.Time) error      { r.Deadline = t; return nil }
+func (r *Closer) SetReadDeadline(t time.Time) error  { r.Deadline = t; return nil }
+func (r *Closer) SetWriteDeadline(t time.Time) error { return nil }
+
+var _ net.Conn = (*Closer)(nil)
 
 // Rich is a reader of its own type that honestly implements the optional
 // interfaces a decoder may probe for.
